@@ -26,7 +26,7 @@ for key, ent in sorted(res.items()):
     c = ent['confirm']
     confirmed = c.get('patch_applies') and c.get('suite_passes_with_change') and c.get('demo_fails_with_change') and c.get('demo_passes_without_change')
     if not confirmed:
-        print('NOT CONFIRMED (not kept):', d, c)
+        print('NOT CONFIRMED (not kept):', d, {k: v for k, v in c.items() if not k.endswith('_output')})
         continue
     out = os.path.join(ROOT, 'seeded', '%s-%s' % (pid, x))
     os.makedirs(out, exist_ok=True)
@@ -48,3 +48,30 @@ for key, ent in sorted(res.items()):
 print('| seeded change | first run | now | failing obligation (first) | change |\n|---|---|---|---|---|')
 for r in rows:
     print('| %s | %s | %s | `%s` | %s |' % tuple(x.replace('|', '/') for x in r))
+
+# ---- behaviour-preserving refactorings and property-neutral behaviour changes (false-alarm tests)
+rows2 = []
+latest = {}
+for f in sorted(glob.glob('/tmp/mut/results_ref*.jsonl')) + sorted(glob.glob('/tmp/mut3/results*.jsonl')):
+    for l in open(f):
+        try:
+            r = json.loads(l)
+        except ValueError:
+            continue
+        latest[r['refactor']] = r
+for d, r in sorted(latest.items()):
+    kind = 'neutral' if '/mut3/' in d else 'refactor'
+    name = '%s-%s-%s' % (kind, d.split('/')[-2], d.rstrip('/').split('_')[-1])
+    out = os.path.join(ROOT, 'benign', name)
+    os.makedirs(out, exist_ok=True)
+    shutil.copy(os.path.join(d, 'patch.diff'), out)
+    if os.path.exists(os.path.join(d, 'demo.rs')):
+        shutil.copy(os.path.join(d, 'demo.rs'), out)
+    meta = json.load(open(os.path.join(d, 'meta.json')))
+    meta['kind'] = 'behaviour-preserving refactoring' if kind == 'refactor' else 'behaviour change that violates none of the 19 properties'
+    meta['checks_run'] = {k: {0: 'exit 0', 1: 'VIOLATION (false alarm)', 2: 'exit 2 (undecided)'}.get(v['exit'], str(v['exit'])) for k, v in r['checks'].items()}
+    json.dump(meta, open(os.path.join(out, 'meta.json'), 'w'), indent=1)
+    rows2.append((name, ', '.join('%s:%s' % (k, v['exit']) for k, v in sorted(r['checks'].items())), (meta.get('summary') or '')[:120]))
+print('\n| benign change | checks run: exit code | change |\n|---|---|---|')
+for r in rows2:
+    print('| %s | %s | %s |' % tuple(x.replace('|', '/') for x in r))
